@@ -32,6 +32,10 @@ INVALID_ARGS = [
 ]
 TERMINAL = [["--help"], ["--version"], ["--list"], ["--describe"], ["-h"]]
 AI_ENVS = [
+    {"CODEMODDER_AZURE_OPENAI_API_KEY": "", "CODEMODDER_AZURE_OPENAI_ENDPOINT": "https://x.invalid"},  # set but empty = unset
+    {"CODEMODDER_AZURE_OPENAI_API_KEY": "k", "CODEMODDER_AZURE_OPENAI_ENDPOINT": ""},
+    {"CODEMODDER_AZURE_LLAMA_API_KEY": "", "CODEMODDER_AZURE_LLAMA_ENDPOINT": "https://x.invalid"},
+    {"CODEMODDER_AZURE_LLAMA_API_KEY": "k", "CODEMODDER_AZURE_LLAMA_ENDPOINT": ""},
     {"CODEMODDER_AZURE_OPENAI_API_KEY": "k"},
     {"CODEMODDER_AZURE_OPENAI_ENDPOINT": "https://x.invalid"},
     {"CODEMODDER_AZURE_LLAMA_API_KEY": "k"},
@@ -39,7 +43,8 @@ AI_ENVS = [
 ]
 # Fully configured clients are NOT generated: in this sandbox constructing openai.OpenAI / AzureOpenAI raises
 # TypeError(proxies) from an openai/httpx version mismatch of the environment, unrelated to the code under test.
-AI_OK_ENVS = [{}]
+AI_OK_ENVS = [{}, {"CODEMODDER_AZURE_OPENAI_API_KEY": "", "CODEMODDER_AZURE_OPENAI_ENDPOINT": ""},
+              {"CODEMODDER_AZURE_LLAMA_API_KEY": "", "CODEMODDER_AZURE_LLAMA_ENDPOINT": ""}, {"CODEMODDER_OPENAI_API_KEY": ""}]
 RESULT_OPTS = ["--sarif", "--sonar-issues-json", "--sonar-hotspots-json", "--defectdojo-findings-json"]
 REPORT_FAULTS = ["enoent-parent", "eisdir", "open-eacces", "open-erofs", "open-enospc", "enospc-on-write", "short-write", "eio-on-write"]
 
@@ -123,7 +128,7 @@ class C20(Check):
     id = "C20"
     level = "fault_enumeration"
     rule = ("every documented failure condition (terminal options; 10 invalid/conflicting/ambiguous argument shapes; "
-            "4 half-configured AI-client environments; missing target; 4 missing result-file options; duplicate SARIF "
+            "8 half-configured AI-client environments (incl. set-but-empty variables); missing target; 4 missing result-file options; duplicate SARIF "
             "tool; 8 report-write fault kinds: missing parent, directory, EACCES/EROFS/ENOSPC at open, ENOSPC/short "
             "write/EIO at write) alone (exhaustive), then seeded pairs, plus completed runs; other options random; "
             "non-trivial = at least one condition applies or the run changed a file; distinct = by experiment digest")
